@@ -1,6 +1,7 @@
 """Small helpers shared by the rule modules."""
 from . import flow as fl
 from . import paths as pa
+from .mir import Place
 
 
 def need(ctx, rule, key):
@@ -92,3 +93,53 @@ def const_int(o):
     if o[0] == "cast":
         return const_int(o[1])
     return None
+
+
+def forwarder(prog, body):
+    """A13: (ok, detail). A pure forwarder's body is one call to a method of the same name on a
+    field projection of self, all remaining parameters passed unchanged, result returned unchanged."""
+    f = fl.Flow(body, prog)
+    real = [(bb, t) for bb, t in body.all_terms() if t.t == "call" and not fl.is_transparent(t)]
+    if len(real) != 1:
+        return False, "%d calls (expected exactly one forwarded call): %s" % (len(real), [t.ckey for _, t in real])
+    bb, t = real[0]
+    if t.cname != body.name:
+        return False, "forwards to a different method: %s" % t.ckey
+    ro = f.origin(Place({"l": 0}))
+    if not (ro[0] == "call" and ro[3] == bb):
+        return False, "returned value is %s, not the forwarded call's result" % fl.fmt(ro)
+    args = [f.origin(a) for a in t.args]
+    if not args or args[0][0] != "param" or args[0][1] != 1 or not args[0][2]:
+        return False, "receiver is %s, expected a field of self" % (fl.fmt(args[0]) if args else "?")
+    for i, a in enumerate(args[1:], start=2):
+        if a != ("param", i, ()):
+            return False, "argument %d is %s, expected parameter %d unchanged" % (i - 1, fl.fmt(a), i)
+    if len(args) != body.arg_count:
+        return False, "passes %d arguments for %d parameters" % (len(args), body.arg_count)
+    return True, "-> %s on self.%s" % (t.tkey, ".".join(args[0][2]))
+
+
+def strip_unwrap(o):
+    """Remove value-preserving wrappers (unwrap/expect/casts) everywhere in an origin."""
+    k = o[0]
+    if k == "call" and o[1].rsplit("::", 1)[-1] in ("unwrap", "expect", "unwrap_unchecked") and o[2]:
+        return strip_unwrap(o[2][0])
+    if k == "cast":
+        return strip_unwrap(o[1])
+    if k == "call":
+        return ("call", o[1], tuple(strip_unwrap(a) for a in o[2]), o[3])
+    if k == "agg":
+        return ("agg", o[1], tuple(strip_unwrap(a) for a in o[2]))
+    if k == "proj":
+        b = strip_unwrap(o[1])
+        if b[0] == "param":
+            return ("param", b[1], tuple(b[2]) + tuple(o[2]))
+        if b[0] == "proj":
+            return ("proj", b[1], tuple(b[2]) + tuple(o[2]))
+        return ("proj", b, o[2])
+    return o
+
+
+def ret(prog, body, depth=3):
+    """Inlined origin of the value a (single-expression) function returns."""
+    return fl.inline(prog, fl.ret_origin(prog, body), depth)
